@@ -1744,6 +1744,54 @@ fn mark_retained_dup(&mut self)
 }
 
 #[verifier::spinoff_prover]
+fn mark_retained_dup__d6(&mut self)
+    requires
+        wf(*old(self)),
+    ensures
+        final(self).retained@ == old(self).retained@ && same_queues(*final(self), *old(self)) && final(self).used == old(self).used
+            && bv(*final(self)).len() == bv(*old(self)).len(),
+        forall|k: int| 0 <= k < bv(*old(self)).len() && !is_first_byte(old(self).retained@, k) ==> #[trigger] bv(*final(self))[k] == bv(*old(self))[k],
+        forall|k: int| 0 <= k < bv(*old(self)).len() && is_first_byte(old(self).retained@, k) ==> #[trigger] bv(*final(self))[k] == bv(*old(self))[k] | 8u8,
+        forall|k: int| 0 <= k < bv(*old(self)).len() && is_first_byte(old(self).retained@, k) && (bv(*old(self))[k] >> 4u8) != 3u8 ==> #[trigger] bv(*final(self))[k] == bv(*old(self))[k],
+        wf(*final(self)),
+{ proof { reveal(wfs); } 
+        let mut __i1: usize = 0;
+        while __i1 < self.retained.len() 
+            invariant
+                __i1 <= self.retained@.len(),
+                self.retained@ == old(self).retained@,
+                same_queues(*self, *old(self)), self.used == old(self).used,
+                bv(*self).len() == bv(*old(self)).len(),
+                wf(*old(self)),
+                forall|k: int| 0 <= k < bv(*self).len() ==> #[trigger] bv(*self)[k] ==
+                    (if is_first_byte(old(self).retained@.subrange(0, __i1 as int), k) { bv(*old(self))[k] | 8u8 } else { bv(*old(self))[k] }),
+            decreases self.retained@.len() - __i1
+{ proof { reveal(wfs); } 
+            let entry = self.retained.at(__i1);
+            proof {
+                let r = old(self).retained@;
+                assert(r[__i1 as int].offset + r[__i1 as int].len <= old(self).used);
+                assert(1u8 << 3 == 8u8) by (bit_vector);
+                lemma_first_byte_step(r, __i1 as int);
+            }
+
+            self.buf[entry.offset] |= 1 << 3;
+            proof {
+                let r = old(self).retained@;
+                assert forall|k: int| 0 <= k < bv(*self).len() implies #[trigger] bv(*self)[k] ==
+                    (if is_first_byte(r.subrange(0, __i1 as int + 1), k) { bv(*old(self))[k] | 8u8 } else { bv(*old(self))[k] }) by {
+                    lemma_first_byte_step(r, __i1 as int);
+                }
+            }
+
+            __i1 += 1;
+        }
+    
+        proof { assert(old(self).retained@.subrange(0, old(self).retained@.len() as int) =~= old(self).retained@); }
+
+}
+
+#[verifier::spinoff_prover]
 fn retained_packet(&self, offset: usize, len: usize) -> (r: &[u8])
     requires
         offset + len <= bv(*self).len() && bv(*self).len() <= usize::MAX,
@@ -5813,6 +5861,132 @@ where
 
         Ok(None)
     }
+
+#[verifier::spinoff_prover]
+#[verifier::rlimit(100)]
+async fn publish__d8<P>(
+        &mut self,
+        publication: Publication<'_, P>,
+    ) -> (r: Result<Option<Op>, PubError<P::Error, IoErr>>)
+where
+        P: ToPayload,
+    requires
+        conn_inv(*old(self)),
+    ensures
+        conn_inv(*final(self)),
+{
+        if !self.live {
+            return Err(Error::Disconnected.into());
+        }
+        (match self.flush_outbound().await { Ok(__v) => __v, Err(__e) => return Err(From::from(__e)) });
+        let ghost o1 = cs(*self).data.outbound;
+        let ghost q1 = cs(*self).runtime.send_quota;
+
+        let Publication {
+            topic,
+            properties,
+            qos,
+            payload,
+            retain,
+        } = publication;
+        if !properties.valid_for(PropertyContext::Publish) {
+            return Err(Error::InvalidRequest.into());
+        }
+        let qos = match self.session.runtime.max_qos {
+            Some(max_qos) if self.session.downgrade_qos && qos > max_qos => max_qos,
+            _ => qos,
+        };
+        let packet_id = (if qos > QoS::AtMostOnce { Some(self.session.data.next_packet_id()) } else { None });
+        let header = PublishHeader {
+            topic: Utf8String(topic),
+            packet_id,
+            properties,
+            retain,
+            qos,
+            dup: false,
+        };
+        if packet_id.is_some() {
+            (match self.require_retained_slot() { Ok(__v) => __v, Err(__e) => return Err(From::from(__e)) });
+        }
+
+        if !self.can_publish(qos) {
+            return Err(Error::NotReady.into());
+        }
+
+        if let Some(packet_id) = packet_id {
+            let (offset, len) = (match self
+                .session
+                .data
+                .outbound
+                .encode_publish(&header, payload) { Ok(__v) => __v, Err(__e) => return Err(From::from(__e)) });
+            let ghost o3 = cs(*self).data.outbound;
+            proof { lemma_inflight_entries(o3, o1); }
+
+            (match self.session.runtime.require_packet_size(len) { Ok(__v) => __v, Err(__e) => return Err(From::from(__e)) });
+            (match self.session
+                .data
+                .outbound
+                .retain_packet(packet_id, offset, len) { Ok(__v) => __v, Err(__e) => return Err(From::from(__e)) });
+            let ghost o4 = cs(*self).data.outbound;
+            proof {
+                lemma_retained_pushed(o4, o3, o1, packet_id, offset, len);
+                lemma_sig_props(o1, cs(*old(self)).data.outbound, packet_id);
+                assert(ret_sig(o4.retained@).drop_last() =~= ret_sig(o3.retained@));
+                lemma_first_ret_bounds(o4.retained@, packet_id);
+            }
+
+            self.session.runtime.send_quota = self.session.runtime.send_quota.saturating_sub(1);
+
+            (match self.flush_outbound().await { Ok(__v) => __v, Err(__e) => return Err(From::from(__e)) });
+            let kind = if qos == QoS::ExactlyOnce {
+                OpKind::PublishExactlyOnce
+            } else {
+                OpKind::PublishAtLeastOnce
+            };
+            proof {
+                lemma_sig_props(cs(*self).data.outbound, o4, packet_id);
+                lemma_first_ret_bounds(o4.retained@, packet_id);
+                lemma_len_of_new(o4, o3, packet_id, offset, len);
+            }
+
+            return Ok(Some(Op::new(
+                kind,
+                packet_id,
+                self.session.data.generation(),
+            )));
+        }
+
+        let packet = (match MqttSerializer::encode_publish(
+            self.session.data.outbound.scratch_space(),
+            &header,
+            payload,
+        ) { Ok(__v) => __v, Err(__e) => return Err(From::from(__e)) });
+        (match self.session.runtime.require_packet_size(packet.len()) { Ok(__v) => __v, Err(__e) => return Err(From::from(__e)) });
+
+        if !self.live {
+            return Err(Error::Disconnected.into());
+        }
+        let ghost w0 = self.io.wire@;
+
+        if let Err(err) = write_all(&mut self.io, packet).await {
+            if matches!(err, Error::WriteZero) {
+                proof { assert(self.io.wire@ == w0 || !self.live); }
+
+                return Err(err.into());
+            }
+
+            self.handle_disconnect();
+            return Err(err.into());
+        }
+        if let Err(err) = self.io.flush().await {
+
+            self.handle_disconnect();
+            return Err(Error::Transport(err).into());
+        }
+        self.session.runtime.note_outbound_activity(Instant::now());
+
+        Ok(None)
+    }
 }
 
 } // verus!
@@ -5905,6 +6079,14 @@ impl vstd::std_specs::convert::TryFromSpecImpl<u8> for QoS {
     }
 }
 
+/// C06: QoS 1/2 PUBLISH packets still unresolved: retained PUBLISH entries plus exchanges awaiting PUBCOMP
+pub open spec fn publish_count(o: Outbound) -> int {
+    o.pending_release@.len() + count_publish(bv(o), o.retained@, o.retained@.len() as int)
+}
+pub open spec fn count_publish(buf: Seq<u8>, r: Seq<RetainedPacket>, n: int) -> int decreases n {
+    if n <= 0 { 0 } else { count_publish(buf, r, n - 1) + (if (buf[r[n - 1].offset as int] >> 4u8) == 3u8 { 1int } else { 0int }) }
+}
+
 /// after arm_replay nothing is half-way on the wire: every entry is fresh
 pub proof fn lemma_armed_idle(o1: Outbound, o0: Outbound)
     requires armed(o1, o0)
@@ -5956,6 +6138,320 @@ async fn connect_handshake(
         r is Err ==> final(self).data.generation == old(self).data.generation || !final(self).data.session_present,
         final(self).downgrade_qos == old(self).downgrade_qos && final(self).session_expiry_interval == old(self).session_expiry_interval
             && final(self).will == old(self).will && final(self).auth == old(self).auth,
+{
+        let client_id = self.client_id.clone();
+        let properties = [
+            Property::MaximumPacketSize(self.packet_reader.buffer.len() as u32),
+            Property::SessionExpiryInterval(self.session_expiry_interval),
+            Property::ReceiveMaximum(self.data.pending_server_packet_ids.capacity() as u16),
+        ];
+        let will = self.will.clone();
+        let keepalive = self.runtime.keepalive_interval.as_secs() as u16;
+        let clean_start = !self.data.session_present;
+        let auth = self.auth;
+
+        {
+            let buffer = self.data.outbound.scratch_space();
+            (match write_packet(
+                buffer,
+                connection,
+                &Connect {
+                    keepalive,
+                    properties: Properties::from_slice(&properties),
+                    client_id: Utf8String(client_id.as_str()),
+                    auth,
+                    will,
+                    clean_start,
+                },
+            )
+            .await { Ok(__v) => __v, Err(__e) => return Err(From::from(__e)) });
+        }
+
+        self.runtime.next_ping = None;
+        self.runtime.ping_timeout = None;
+
+        if let Err(err) = fill_packet_reader(&mut self.packet_reader, connection).await {
+            match &err {
+                Error::Transport(err) => (),
+                Error::Disconnected => (),
+                _ => {}
+            }
+            self.handle_disconnect();
+            return Err(err);
+        }
+
+        let packet = match self.packet_reader.received_packet() {
+            Ok(packet) => packet,
+            Err(err) => {
+
+                self.handle_disconnect();
+                return Err(err.into());
+            }
+        };
+        let ack = match packet {
+            ReceivedPacket::ConnAck(ack) => ack,
+            ReceivedPacket::Disconnect(disconnect) => {
+
+                self.handle_disconnect();
+                return Err(Error::Disconnected);
+            }
+            _ => {
+                self.handle_disconnect();
+                return Err(Error::Peer(PeerError::InvalidPacket));
+            }
+        };
+
+        if let Err(err) = ack.reason_code.as_result() {
+
+            return Err(Error::Peer(err));
+        }
+
+        let resumed = ack.session_present;
+        if !resumed {
+
+            self.data.reset();
+        }
+
+        let local_quota = self.data.outbound.max_inflight();
+        let mut send_quota = local_quota;
+        let mut max_send_quota = local_quota;
+        let mut max_qos = None;
+        let mut maximum_packet_size = None;
+        let mut keepalive_interval = self.runtime.keepalive_interval;
+        let mut assigned_client_id: Option<String<64>> = None;
+
+        let mut property_result = Ok(()); 'iife1: loop 
+            invariant
+                1 <= max_send_quota <= 8, send_quota == max_send_quota, local_quota == 8,
+                keepalive_interval.ticks() <= 65535 * 1_000_000,
+                property_result matches Err(e) ==> e == PeerError::InvalidPacket,
+{
+            let mut __it1 = ack.properties.iter(); loop 
+            invariant
+                0 <= __it1.idx@ <= props_items(__it1.p).len(),
+                1 <= max_send_quota <= 8, send_quota == max_send_quota, local_quota == 8,
+                keepalive_interval.ticks() <= 65535 * 1_000_000,
+                property_result matches Err(e) ==> e == PeerError::InvalidPacket,
+{ let property = match __it1.next() { Some(__v) => __v, None => break };
+                match (match property { Ok(__v) => __v, Err(__e) => { property_result = Err(From::from(__e)); break 'iife1; } }) {
+                    Property::MaximumPacketSize(size) => maximum_packet_size = Some(size),
+                    Property::AssignedClientIdentifier(id) => {
+                        assigned_client_id =
+                            Some((match (match id.try_into() { Ok(__v) => Ok(__v), Err(_) => Err(PeerError::InvalidPacket) }) { Ok(__v) => __v, Err(__e) => { property_result = Err(From::from(__e)); break 'iife1; } }));
+                    }
+                    Property::ServerKeepAlive(keepalive) => {
+                        keepalive_interval = Duration::from_secs(keepalive as u64);
+                    }
+                    Property::ReceiveMaximum(max) => {
+                        if max == 0 {
+                            { property_result = Err(PeerError::InvalidPacket); break 'iife1; }
+                        }
+                        send_quota = max.min(local_quota);
+                        max_send_quota = max.min(local_quota);
+                    }
+                    Property::MaximumQoS(max) => {
+                        max_qos = Some((match (match QoS::try_from(max) { Ok(__v) => Ok(__v), Err(_) => Err(PeerError::InvalidPacket) }) { Ok(__v) => __v, Err(__e) => { property_result = Err(From::from(__e)); break 'iife1; } }));
+                    }
+                    _ => {}
+                }
+            }
+             break; }
+        if let Err(err) = property_result {
+            self.handle_disconnect();
+            return Err(Error::Peer(err));
+        }
+
+        self.runtime.session_resumed = resumed;
+        self.runtime.keepalive_interval = keepalive_interval;
+        self.runtime.send_quota = send_quota;
+        self.runtime.max_send_quota = max_send_quota;
+        self.runtime.max_qos = max_qos;
+        self.runtime.maximum_packet_size = maximum_packet_size;
+        if let Some(assigned_client_id) = assigned_client_id {
+            self.client_id = assigned_client_id;
+        }
+
+        self.data.mark_session_present();
+        self.runtime.note_outbound_activity(Instant::now());
+        self.runtime.ping_timeout = None;
+        if resumed {
+
+            Ok(ConnectEvent::Reconnected)
+        } else {
+
+            Ok(ConnectEvent::Connected)
+        }
+    }
+
+#[verifier::spinoff_prover]
+#[verifier::exec_allows_no_decreases_clause]
+#[verifier::rlimit(100)]
+async fn connect_handshake__d9(
+        &mut self,
+        connection: &mut VIo,
+    ) -> (r: Result<ConnectEvent, Error<IoErr>>)
+    requires
+        sess_inv(*old(self)) && no_in_progress(old(self).data.outbound),
+    ensures
+        sess_inv(*final(self)),
+        !(r matches Err(Error::Resource(ResourceError::BufferTooSmall))),
+{
+        let client_id = self.client_id.clone();
+        let properties = [
+            Property::MaximumPacketSize(self.packet_reader.buffer.len() as u32),
+            Property::SessionExpiryInterval(self.session_expiry_interval),
+            Property::ReceiveMaximum(self.data.pending_server_packet_ids.capacity() as u16),
+        ];
+        let will = self.will.clone();
+        let keepalive = self.runtime.keepalive_interval.as_secs() as u16;
+        let clean_start = !self.data.session_present;
+        let auth = self.auth;
+
+        {
+            let buffer = self.data.outbound.scratch_space();
+            (match write_packet(
+                buffer,
+                connection,
+                &Connect {
+                    keepalive,
+                    properties: Properties::from_slice(&properties),
+                    client_id: Utf8String(client_id.as_str()),
+                    auth,
+                    will,
+                    clean_start,
+                },
+            )
+            .await { Ok(__v) => __v, Err(__e) => return Err(From::from(__e)) });
+        }
+
+        self.runtime.next_ping = None;
+        self.runtime.ping_timeout = None;
+
+        if let Err(err) = fill_packet_reader(&mut self.packet_reader, connection).await {
+            match &err {
+                Error::Transport(err) => (),
+                Error::Disconnected => (),
+                _ => {}
+            }
+            self.handle_disconnect();
+            return Err(err);
+        }
+
+        let packet = match self.packet_reader.received_packet() {
+            Ok(packet) => packet,
+            Err(err) => {
+
+                self.handle_disconnect();
+                return Err(err.into());
+            }
+        };
+        let ack = match packet {
+            ReceivedPacket::ConnAck(ack) => ack,
+            ReceivedPacket::Disconnect(disconnect) => {
+
+                self.handle_disconnect();
+                return Err(Error::Disconnected);
+            }
+            _ => {
+                self.handle_disconnect();
+                return Err(Error::Peer(PeerError::InvalidPacket));
+            }
+        };
+
+        if let Err(err) = ack.reason_code.as_result() {
+
+            return Err(Error::Peer(err));
+        }
+
+        let resumed = ack.session_present;
+        if !resumed {
+
+            self.data.reset();
+        }
+
+        let local_quota = self.data.outbound.max_inflight();
+        let mut send_quota = local_quota;
+        let mut max_send_quota = local_quota;
+        let mut max_qos = None;
+        let mut maximum_packet_size = None;
+        let mut keepalive_interval = self.runtime.keepalive_interval;
+        let mut assigned_client_id: Option<String<64>> = None;
+
+        let mut property_result = Ok(()); 'iife1: loop 
+            invariant
+                1 <= max_send_quota <= 8, send_quota == max_send_quota, local_quota == 8,
+                keepalive_interval.ticks() <= 65535 * 1_000_000,
+                property_result matches Err(e) ==> e == PeerError::InvalidPacket,
+{
+            let mut __it1 = ack.properties.iter(); loop 
+            invariant
+                0 <= __it1.idx@ <= props_items(__it1.p).len(),
+                1 <= max_send_quota <= 8, send_quota == max_send_quota, local_quota == 8,
+                keepalive_interval.ticks() <= 65535 * 1_000_000,
+                property_result matches Err(e) ==> e == PeerError::InvalidPacket,
+{ let property = match __it1.next() { Some(__v) => __v, None => break };
+                match (match property { Ok(__v) => __v, Err(__e) => { property_result = Err(From::from(__e)); break 'iife1; } }) {
+                    Property::MaximumPacketSize(size) => maximum_packet_size = Some(size),
+                    Property::AssignedClientIdentifier(id) => {
+                        assigned_client_id =
+                            Some((match (match id.try_into() { Ok(__v) => Ok(__v), Err(_) => Err(PeerError::InvalidPacket) }) { Ok(__v) => __v, Err(__e) => { property_result = Err(From::from(__e)); break 'iife1; } }));
+                    }
+                    Property::ServerKeepAlive(keepalive) => {
+                        keepalive_interval = Duration::from_secs(keepalive as u64);
+                    }
+                    Property::ReceiveMaximum(max) => {
+                        if max == 0 {
+                            { property_result = Err(PeerError::InvalidPacket); break 'iife1; }
+                        }
+                        send_quota = max.min(local_quota);
+                        max_send_quota = max.min(local_quota);
+                    }
+                    Property::MaximumQoS(max) => {
+                        max_qos = Some((match (match QoS::try_from(max) { Ok(__v) => Ok(__v), Err(_) => Err(PeerError::InvalidPacket) }) { Ok(__v) => __v, Err(__e) => { property_result = Err(From::from(__e)); break 'iife1; } }));
+                    }
+                    _ => {}
+                }
+            }
+             break; }
+        if let Err(err) = property_result {
+            self.handle_disconnect();
+            return Err(Error::Peer(err));
+        }
+
+        self.runtime.session_resumed = resumed;
+        self.runtime.keepalive_interval = keepalive_interval;
+        self.runtime.send_quota = send_quota;
+        self.runtime.max_send_quota = max_send_quota;
+        self.runtime.max_qos = max_qos;
+        self.runtime.maximum_packet_size = maximum_packet_size;
+        if let Some(assigned_client_id) = assigned_client_id {
+            self.client_id = assigned_client_id;
+        }
+
+        self.data.mark_session_present();
+        self.runtime.note_outbound_activity(Instant::now());
+        self.runtime.ping_timeout = None;
+        if resumed {
+
+            Ok(ConnectEvent::Reconnected)
+        } else {
+
+            Ok(ConnectEvent::Connected)
+        }
+    }
+
+#[verifier::spinoff_prover]
+#[verifier::exec_allows_no_decreases_clause]
+#[verifier::rlimit(100)]
+async fn connect_handshake__d5b(
+        &mut self,
+        connection: &mut VIo,
+    ) -> (r: Result<ConnectEvent, Error<IoErr>>)
+    requires
+        sess_inv(*old(self)) && no_in_progress(old(self).data.outbound),
+    ensures
+        sess_inv(*final(self)),
+        r == Ok::<ConnectEvent, Error<IoErr>>(ConnectEvent::Reconnected) ==> final(self).runtime.send_quota + publish_count(final(self).data.outbound) <= final(self).runtime.max_send_quota,
 {
         let client_id = self.client_id.clone();
         let properties = [
